@@ -69,6 +69,37 @@ CLAIMED["C03"] = dict(
     technique="algebraic value numbering over an exact ring with function atoms; formal total derivative; entry-wise identity test",
 )
 
+CLAIMED["C11"] = dict(
+    category="proof",
+    text="Hand-coded finite-strain models (8 configurations) are evaluated on a symbolic F: P(QF) == Q P(F) and P(FQ) == P(F) Q for a "
+    "symbolic rotation about each coordinate axis (computed in the quotient ring with s^2 = 1 - c^2; the axis rotations generate "
+    "SO(3)), P F^T symmetric, major symmetry of A, P(1) == 0. Every AD model function (28 discovered, both backends): stress-free "
+    "reference state as dW/dC == 0 at C = 1 with symbolic parameters (entry-wise on a full symmetric C, or on the ray C = s 1 for "
+    "eigenvalue-based isotropic energies), W(kC) == W(C) for the isochoric ones, W(Q^T C Q) == W(C) or use of C only under "
+    "eigvalsh/det/trace; the AD wrapper's stress is F S(F^T F) with symmetric S (hence objective, P F^T symmetric, major symmetry); "
+    "every Lagrange-wrapped material satisfies P(QF) == Q P(F) with F in principal axes and full symbolic state.",
+    design_ref="DESIGN.md section 3, C11",
+    note="Trusted: summaries of tensortrax.math / jax.numpy; eigvalsh is a symmetric function of the eigenvalue multiset; for the "
+    "micro-sphere models the 21-point rule is replaced by an exact rule with the same second moments (which C05 proves for the "
+    "real rule up to its literal precision). MORPH at the exact virgin state (0/0) is not decided.",
+    technique="algebraic value numbering in a quotient ring (symbolic rotations), jets at the reference state, scaling identities",
+)
+CLAIMED["C12"] = dict(
+    category="proof",
+    text="Every function under constitution/jax/models (21 discovered from the AST) is paired with its tensortrax namesake and both "
+    "bodies are evaluated in the same abstract world (diagonal and full symmetric C, symbolic stretches, symbolic parameters, both "
+    "cases of max()); they must return the same canonical ring element. Hand-coded NeoHooke vs AD neo_hooke (also for a full F via "
+    "the verified identity det(F^T F) = det(F)^2), OgdenRoxburgh's softening function vs the AD version, LinearElastic vs "
+    "LinearElasticTensorNotation vs the small-strain framework's linear-elastic law (9 stress + 81 tangent entries as rational "
+    "functions of E, nu), plane strain / plane stress vs the 3D law under the kinematic / static constraint, the orthotropic tensor "
+    "vs the second derivative of the orthotropic SVK energy at C = 1 through lame_converter_orthotropic.",
+    design_ref="DESIGN.md section 3, C12",
+    note="Trusted: backend idioms are mapped to the same abstract operations (fverif/admodels.py); the jax-only eigenvalue "
+    "regularisation C + diag(+-1e-4) is recognised, logged and treated as C (a larger shift is reported); the Lagrange (stress-type) "
+    "models are compared with F in principal axes. Initial moduli vs docstrings (O6) are not yet checked.",
+    technique="algebraic value numbering of sibling implementations; equality of canonical forms",
+)
+
 NOT_APPLICABLE = {}
 
 TODO_REASON = "check not built yet in this session (static rule designed in DESIGN.md; will be claimed once its checker is committed)"
